@@ -394,3 +394,27 @@ let () =
          | None, _ -> "ERR-out"
          | _, None -> "ERR-parent")
     | _ -> "BADARGS")
+
+(* ------------------------------------------------------------------ walker model (C03) *)
+let rec rptree r : ptree =
+  match next r with
+  | 'R' -> PRes (explode (unhex (until_semi r)))
+  | 'C' -> PCon (explode (unhex (until_semi r)))
+  | 'T' -> PTok (explode (unhex (until_semi r)))
+  | 'B' -> let n = int_of_string (until_semi r) in
+           let rec kids k = if k = 0 then [] else let x = rptree r in x :: kids (k - 1) in
+           PBranch (kids n)
+  | c -> failwith "bad ptree"
+let () =
+  register "walkmodel" (function
+    | [enc] ->
+        let r = { s = enc; i = 0 } in
+        (match rptree r with
+         | PBranch kids ->
+             (match parse_begin (nat_of_int 500) kids with
+              | Some g ->
+                  String.concat "\x1f" (List.map (fun n -> hex_of (implode n)) g.g_nodes) ^ "\t" ^
+                  String.concat "\x1f" (List.map (fun ((p, c), l) -> Printf.sprintf "%d,%d,%s" (int_of_nat p) (int_of_nat c) (hex_of (implode l))) g.g_edges)
+              | None -> "RAISE")
+         | _ -> "BADTREE")
+    | _ -> "BADARGS")
